@@ -555,6 +555,58 @@ func main() {
 		runTx(c)
 	}
 
+	// ---------------- CheckTransactionInput: duplicate detection is by outpoint, not by (outpoint, Sequence)
+	for i := 0; i < run.N(300, 6000); i++ {
+		tt := types[rng.Intn(len(types))]
+		if kinds[tt] != kStd || rng.Chance(50) {
+			tt = common2.TransferAsset
+		}
+		n := rng.Intn(5)
+		if rng.Chance(5) {
+			n = 5 + rng.Intn(20)
+		}
+		var ins []*common2.Input
+		var terms []string
+		for j := 0; j < n; j++ {
+			op := int64(1 + rng.Intn(4))
+			if rng.Chance(4) {
+				op = -1
+			}
+			seq := uint32(rng.PickU64(0, 0, 1, 2, 1<<32-1, 1<<32-2))
+			in := &common2.Input{Sequence: seq}
+			if op == -1 {
+				in.Previous.Index = 65535 // all-zero txid with index MaxUint16
+			} else {
+				in.Previous.TxID[0] = byte(op % 3) // ids 1..4 spread over txid and index
+				in.Previous.TxID[5] = 9
+				in.Previous.Index = uint16(op / 3)
+			}
+			ins = append(ins, in)
+			terms = append(terms, fmt.Sprintf("I %s %d", lib.CoqZi(op), seq))
+		}
+		tx := transaction.CreateTransaction(common2.TxVersion09, tt, 0, &payload.TransferAsset{}, nil, ins, nil, 0, nil)
+		tx.SetParameters(&transaction.TransactionParameters{Transaction: tx, BlockHeight: 2000000, Config: config.GetDefaultParams()})
+		var e error
+		pan, pv := lib.Recover(func() { e = tx.CheckTransactionInput() })
+		k := next()
+		sh.Add(fmt.Sprintf("CInputs %d %s %d", k, lib.CoqList(terms), verdict(pan, e)))
+		in := map[string]interface{}{"op": "CheckTransactionInput", "type": tt.Name(), "inputs(outpoint id, sequence)": terms, "result": verdict(pan, e)}
+		st.LogCase(run.Out, k, in)
+		if pan {
+			st.Fail("c01:panic", fmt.Sprintf("CheckTransactionInput panicked: %v", pv), in)
+		}
+		seen := map[string]bool{}
+		rep := false
+		for _, x := range ins {
+			rep = rep || seen[x.Previous.ReferKey()]
+			seen[x.Previous.ReferKey()] = true
+		}
+		st.Count(fmt.Sprintf("ins|%s|%v", tt.Name(), terms), rep, "CheckTransactionInput")
+		if rep && !pan && e == nil && st.Hist["oracle_fail:c01:repeated-outpoint-accepted"] < 3 {
+			st.Fail("c01:repeated-outpoint-accepted", "CheckTransactionInput accepted a transaction that names one outpoint more than once (the fee check would count that output once per input)", in)
+		}
+	}
+
 	// ---------------- getTransactionFee directly
 	for i := 0; i < run.N(400, 6000); i++ {
 		var outs, refs []int64
